@@ -31,9 +31,18 @@ SpecRead2(kind, doc) ==
     [] kind = "entities" -> EntitiesFromDoc(doc)
     [] kind = "request" -> RequestFromDoc(doc)
 
-Why(ev) ==
+\* event "djson": a decision with its diagnostic (reasons and errors with positions and messages)
+DiagWhy(ev) ==
   LET o == ev.obs IN
   IF "json" \notin DOMAIN o THEN <<"panic">>
+  ELSE (IF DecisionDiagFromDoc(o.json) = Ok(ev.datum) THEN <<>> ELSE <<"specification reading of the encoding">>)
+       \o (IF o.back.ok /\ o.back.v = ev.datum THEN <<>> ELSE <<"decoded">>)
+       \o (IF o.rejson = "same" THEN <<>> ELSE <<"second encoding differs">>)
+
+Why(ev) ==
+  LET o == ev.obs IN
+  IF ev.op = "djson" THEN DiagWhy(ev)
+  ELSE IF "json" \notin DOMAIN o THEN <<"panic">>
   ELSE LET d == Datum(ev.kind, ev.datum) IN
        (IF Obs(SpecRead2(ev.kind, o.json)) = Ok(d) THEN <<>> ELSE <<"specification reading of the encoding">>)
        \o (IF o.back.ok /\ Datum(ev.kind, o.back.v) = d THEN <<>> ELSE <<"decoded">>)
